@@ -499,10 +499,13 @@ impl ItemizedBlock {
             line_start = itemized_block_quote_start(line, line_start, 2);
             indent = line_start.len();
         }
+        // A line made of block quote markers only has no space after the last `>`, so it can be
+        // shorter than the markers' canonical form "> > ".
+        let content_start = std::cmp::min(indent, line.len());
         Some(ItemizedBlock {
-            lines: vec![line[indent..].to_string()],
+            lines: vec![line[content_start..].to_string()],
             indent,
-            opener: line[..indent].to_string(),
+            opener: line[..content_start].to_string(),
             line_start,
         })
     }
